@@ -63,6 +63,10 @@ func factsC13() {
 	}
 	emitStr("postingsKeyPreimage", "pkg/store/cache/cache.go CacheKey.String: the string hashed for a postings key", pre)
 
+	// how LabelMatchersToString writes a matcher list (every matcher through Matcher.String, ';' between)
+	emitList("labelMatchersWrites", "pkg/store/cache/cache.go LabelMatchersToString: what is written, in order",
+		writeArgs(body(fn(f, "", "LabelMatchersToString")), "sb"))
+
 	g := parse("pkg/store/cache/matchers_cache.go")
 	ck := fn(g, "", "cacheKey")
 	emitList("matcherKeyWrites", "pkg/store/cache/matchers_cache.go cacheKey: what is written to the key, in order",
